@@ -82,7 +82,7 @@ func targets(c caseCfg, f []string) (paths []string, names []string) {
 		return c.vcwd + "/" + p
 	}
 	switch f[0] {
-	case "put", "get", "del", "qry":
+	case "put", "get", "gmt", "del", "qry":
 		if k, ok := unhx(f[1]); ok {
 			return []string{c.vroot + "/" + k}, []string{k}
 		}
